@@ -72,9 +72,8 @@ class Public(Case):
 
     def inputs(self, mk):
         p = self.params
-        specs = [shell_spec(mk, "ABCD"[i], l, K, M) for i, (l, K, M) in enumerate(zip(p["ls"], p["Ks"], p["Ms"]))]
         pts, q = _charges(mk, p["nq"])
-        return dict(specs=specs, pts=pts, q=q)
+        return dict(specs=cm.specs_from(mk, p), pts=pts, q=q)
 
     def code(self, I, mk):
         from gbasis.integrals.point_charge import point_charge_integral
@@ -116,6 +115,8 @@ def cases(tier):
     out.append(Public(ls=[0, 1], types="cc", Ks=[2, 1], Ms=[1, 2], nq=2))
     out.append(Public(ls=[1, 0], types="cc", Ks=[1, 1], Ms=[1, 1], nq=1))
     out.append(Public(ls=[2, 1], types="sc", Ks=[1, 1], Ms=[1, 1], nq=1))
+    # homonuclear: the same shell (exponents, coefficients) on two centres, plus a second shell on the first centre
+    out.append(Public(ls=[1, 1, 0], types="ccc", Ks=[1, 1, 1], Ms=[1, 1, 1], nq=1, twin={"1": 0}, share={"2": 0}))
     if tier == "thorough":
         E = cm.EXP_POOL
         for la in range(6):
